@@ -433,24 +433,33 @@ func runC05(c *rt.Ctx) {
 	})
 	{
 		oldF := uu.Formatter
-		uu.Formatter = func(buf []byte, id uu.ID, f uu.Format) ([]byte, error) { return nil, errors.New("formatter refuses") }
-		c.Serial("failing-formatter", func(w *rt.W) {
-			for _, id := range bgs {
-				want := ref.UUIDText(id.Higher, id.Lower)
-				for _, vb := range []struct{ verb, want string }{{"%s", want}, {"%v", want}, {"%u", "urn:uuid:" + want}} {
-					if g := fmt.Sprintf(vb.verb, id); g != vb.want {
-						w.Fail("failing-formatter-fallback", "format", rt.Args("hi", fmt.Sprint(id.Higher), "lo", fmt.Sprint(id.Lower), "path", "Sprintf "+vb.verb+" with a failing Formatter"), g, vb.want, "String and the verbs fall back to DefaultFormatter when the configured Formatter fails")
-					}
+		for _, withBytes := range []bool{false, true} {
+			withBytes := withBytes
+			uu.Formatter = func(buf []byte, id uu.ID, f uu.Format) ([]byte, error) {
+				if withBytes { // the usual shape of a wrapper: the bytes it has together with its error
+					b, _ := uu.DefaultFormatter(buf, id, f)
+					return append(b, "?!"...), errors.New("formatter refuses")
 				}
-				if g := id.String(); g != want {
-					w.Fail("failing-formatter-fallback", "format", rt.Args("hi", fmt.Sprint(id.Higher), "lo", fmt.Sprint(id.Lower), "path", "String with a failing Formatter"), g, want, "fallback")
-				}
-				if g := id.URN(); g != "urn:uuid:"+want {
-					w.Fail("failing-formatter-fallback", "format", rt.Args("hi", fmt.Sprint(id.Higher), "lo", fmt.Sprint(id.Lower), "path", "URN with a failing Formatter"), g, "urn:uuid:"+want, "fallback")
-				}
-				w.Eval(5)
+				return nil, errors.New("formatter refuses")
 			}
-		})
+			c.Serial("failing-formatter", func(w *rt.W) {
+				for _, id := range bgs {
+					want := ref.UUIDText(id.Higher, id.Lower)
+					for _, vb := range []struct{ verb, want string }{{"%s", want}, {"%v", want}, {"%u", "urn:uuid:" + want}} {
+						if g := fmt.Sprintf(vb.verb, id); g != vb.want {
+							w.Fail("failing-formatter-fallback", "format", rt.Args("hi", fmt.Sprint(id.Higher), "lo", fmt.Sprint(id.Lower), "path", "Sprintf "+vb.verb+" with a failing Formatter"), g, vb.want, "String and the verbs fall back to DefaultFormatter when the configured Formatter fails")
+						}
+					}
+					if g := id.String(); g != want {
+						w.Fail("failing-formatter-fallback", "format", rt.Args("hi", fmt.Sprint(id.Higher), "lo", fmt.Sprint(id.Lower), "path", "String with a failing Formatter"), g, want, "fallback")
+					}
+					if g := id.URN(); g != "urn:uuid:"+want {
+						w.Fail("failing-formatter-fallback", "format", rt.Args("hi", fmt.Sprint(id.Higher), "lo", fmt.Sprint(id.Lower), "path", "URN with a failing Formatter"), g, "urn:uuid:"+want, "fallback")
+					}
+					w.Eval(5)
+				}
+			})
+		}
 		uu.Formatter = oldF
 	}
 	{ // call histories: valid texts colliding under weak checksums, parsed back to back
